@@ -8,7 +8,7 @@ use crate::refchess::{Kind, Pos};
 use crate::framework::Tape;
 use serde_json::json;
 
-pub const RULE: &str = "game histories: real moves only, from legal roots incl. FEN roots with halfmove clock in {0,1,3,5,49,50,97..101,150} and no history, chosen with a shuffle bias (prefer undoing the move of two plies ago) so that repetitions, repetitions spoiled by a rights / e.p. difference and clocks crossing 100 are common; a second family interleaves search-like null moves and take-backs. After every step, against the reference's own list of earlier positions: is_repeated_position() <=> an earlier position since the last capture or pawn move has the same identity (both directions on real-move histories; with null moves on the stack only 'true => such a position exists'); is_stalemate_by_fifty_move_rule() <=> clock >= 100 and a legal move exists; is_stalemate_by_insufficient_material() is true for K v K and K+minor v K, false whenever a pawn, rook or queen is on the board or more than two minors remain, unconstrained otherwise. Search level ('draw_available_search'): when some legal move leads to a position drawn by the game history (repetition - possibly more than 50 plies back -, fifty-move rule, dead material), a depth 1-3 search with that history must not report a negative score; 'far_back_repetition_search' applies the same demand to constructed games in which both kings walk closed tours of coprime lengths 3..8 while one side has spare pawns, so that the first recurrence of the whole position lies 24..112 plies back and the worse side is to move one ply before it. Non-trivial = history in which the expected repetition verdict is true at least once, or the clock crosses 99->100, or a repetition candidate is spoiled by a rights / e.p. difference; distinct by (root, op list).";
+pub const RULE: &str = "game histories: real moves only, from legal roots incl. FEN roots with halfmove clock in {0,1,3,5,49,50,97..101,150} and no history, chosen with a shuffle bias (prefer undoing the move of two plies ago) so that repetitions, repetitions spoiled by a rights / e.p. difference and clocks crossing 100 are common; a second family interleaves search-like null moves and take-backs. After every step, against the reference's own list of earlier positions: is_repeated_position() <=> an earlier position since the last capture or pawn move has the same identity (both directions on real-move histories; with null moves on the stack only 'true => such a position exists'); is_stalemate_by_fifty_move_rule() <=> clock >= 100 and a legal move exists; is_stalemate_by_insufficient_material() is true for K v K and K+minor v K, false whenever a pawn, rook or queen is on the board or more than two minors remain, unconstrained otherwise. Search level ('draw_available_search'): when some legal move leads to a position drawn by the game history (repetition - possibly more than 50 plies back -, fifty-move rule, dead material), a depth 1-3 search with that history must not report a negative score; 'far_back_repetition_search' applies the same demand to constructed games in which both kings walk closed tours of coprime lengths 3..8 while one side has spare pawns, so that the first recurrence of the whole position lies 24..112 plies back and the worse side is to move one ply before it. After each of these searches (fresh table) the table must hold no draw score under the key of an earlier position of the game (a draw by history must not leak into a table that later games share). Non-trivial = history in which the expected repetition verdict is true at least once, or the clock crosses 99->100, or a repetition candidate is spoiled by a rights / e.p. difference; distinct by (root, op list).";
 
 #[derive(Default)]
 struct Obs {
@@ -134,6 +134,27 @@ fn record(o: &Obs, st: &mut Stats, root: String, ops: Vec<String>) {
     }
 }
 
+/// After a search on a fresh table: the table must hold no draw score under the key of a position that
+/// is a draw only through *this* game's history (an earlier position of the game: whenever the search
+/// meets it again it is a repetition). A later search of another game shares the table, and there the
+/// same position is not repeated.
+fn no_history_draw_in_table(state: &crate::engine::search::PersistentState, earlier: &[Pos], cur: &Pos, st: &mut Stats) -> Result<(), (String, String)> {
+    let cur_id = cur.identity();
+    for x in earlier {
+        if x.identity() == cur_id {
+            continue;
+        }
+        let key = to_game(x).zobrist;
+        if let Some(e) = state.tt.get(&key) {
+            st.class("table_entry_under_the_key_of_an_earlier_position_of_the_game");
+            if e.eval == crate::engine::eval::Eval::DRAW {
+                return Err((x.to_fen(), format!("{:?} depth {} eval {}", e.bound, e.depth, e.eval.0)));
+            }
+        }
+    }
+    Ok(())
+}
+
 pub fn run(run: &mut Run) -> &'static str {
     let cases = run.tier.pick(240_000, 6_000_000);
     run.proptest_part("games", RULE, hist_case(4..200), cases, |case: &HistCase, st: &mut Stats| {
@@ -245,6 +266,9 @@ pub fn run(run: &mut Run) -> &'static str {
         }
         let mut state = crate::engine::search::PersistentState::new(1);
         let out = run_search(&game, &mut state, &spec.limit, 0).map_err(|pm| Fail::new(&format!("search_panic:{}", panic_signature(&pm)), format!("search at {} panicked: {pm}", cur.to_fen())).explicit(ex()))?;
+        if let Err((x, e)) = no_history_draw_in_table(&state, &earlier, &cur, st) {
+            return Err(Fail::new("search:history_draw_stored_in_shared_table", format!("after searching {} with a history of {} plies, the table holds '{e}' under the key of {x}, a position that is drawn only because it occurred earlier in this game", cur.to_fen(), ops.len())).explicit(ex()));
+        }
         for info in &out.infos {
             let negative = info.mate.map_or(false, |n| n < 0) || info.cp.map_or(false, |c| c < 0);
             if negative {
@@ -365,6 +389,9 @@ pub fn run(run: &mut Run) -> &'static str {
         }
         let mut state = crate::engine::search::PersistentState::new(1);
         let out = run_search(&game, &mut state, &spec.limit, 0).map_err(|pm| Fail::new(&format!("search_panic:{}", panic_signature(&pm)), format!("search at {} panicked: {pm}", cur.to_fen())).explicit(ex()))?;
+        if let Err((x, e)) = no_history_draw_in_table(&state, &earlier, &cur, st) {
+            return Err(Fail::new("search:history_draw_stored_in_shared_table", format!("after searching {} with a history of {} plies, the table holds '{e}' under the key of {x}, a position that is drawn only because it occurred earlier in this game", cur.to_fen(), ops.len())).explicit(ex()));
+        }
         for info in &out.infos {
             if info.mate.map_or(false, |n| n < 0) || info.cp.map_or(false, |c| c < 0) {
                 return Err(Fail::new("search:draw_not_taken_into_account", format!("{} after {} plies: the move(s) {drawing:?} lead to a position drawn by the game history, yet the search reports '{}'", cur.to_fen(), ops.len(), info.text())).explicit(ex()));
